@@ -8,6 +8,9 @@ from .crystals import TOL
 def analyzer(atoms, tol=TOL, **kw):
     from matid.symmetry import SymmetryAnalyzer
 
+    # the documented signature is (system, symmetry_tol, min_2d_thickness): half of the calls pass the tolerance by position
+    if len(atoms) % 2 and not kw:
+        return SymmetryAnalyzer(atoms, tol)
     return SymmetryAnalyzer(atoms, symmetry_tol=tol, **kw)
 
 
